@@ -204,7 +204,9 @@ func runProperty(pc *PropCfg, repo, verif, tier string, update bool) *propResult
 	// obligations that existed in the baseline and are gone
 	var missing []string
 	for n := range expected {
-		if !seen[n] {
+		// only contract clauses are tracked (post / inv / dec / lemma): the ordinals of safety and call-site
+		// obligations shift with harmless edits
+		if !seen[n] && (strings.Contains(n, "#post.") || strings.Contains(n, "#inv.") || strings.Contains(n, "#dec.") || strings.HasPrefix(n, "lemma.")) {
 			missing = append(missing, n)
 		}
 	}
